@@ -203,8 +203,12 @@ class Ring(object):
         bases = []
         for mn, cn in LONG_LIVED_BASES:
             m = repo.try_mod(mn)
-            if m is not None and cn in m.classes:
-                bases.append(m.classes[cn])
+            if m is None:
+                continue
+            try:
+                bases.append(m.cls(cn))         # the definition, wherever in the package it is written now
+            except AnalysisError:
+                continue
         ll = {}
         for c in self.classes:
             if self._per_request(c):
@@ -297,7 +301,7 @@ class Ring(object):
         construction code."""
         out = []
         for m in self.mods:
-            if m.name in CORE_MODS or m.name in SERVER_MODS:
+            if m in self.rp.mods or m.name in SERVER_MODS:
                 continue
             for fi in m.functions.values():
                 if isinstance(fi.node, ast.Lambda):
@@ -632,7 +636,7 @@ def check_ring(rep, rule, rp):
                         (e.kind == 'mutcall' or (e.kind in ('store', 'delete') and len(e.chain) >= 2) or
                          (e.kind == 'augname' and not effects.aug_rebinds(e.node)))]
                 rebound = any(True for st, v, idx in assigned_value(fi.node, p) if not isinstance(v, ast.AugAssign))
-                if muts and not rebound and fi in rp.reach and fi.mod.name in CORE_MODS:
+                if muts and not rebound and fi in rp.reach and fi.mod in rp.mods:
                     rep.fail(rule, '%s::%s' % (fi.key, norm(muts[0].node)[:90]),
                              '%s updates the default object of parameter %s in place (%s is evaluated once, when the function is defined): '
                              'state that outlives the request' % (fi.qualname, p, short(d)), fi.mod, muts[0].node)
